@@ -45,6 +45,27 @@ def fmt(d):
 
 
 def h_cert(eng, case):
+    # the process time zone is part of the environment: instants handed in as naive datetimes mean what they say in
+    # every zone (fixed-offset POSIX zones: no tz database needed)
+    import os
+    import time
+    tz = case.get('tz')
+    if tz:
+        old = os.environ.get('TZ')
+        os.environ['TZ'] = tz
+        time.tzset()
+    try:
+        return _h_cert(eng, case)
+    finally:
+        if tz:
+            if old is None:
+                os.environ.pop('TZ', None)
+            else:
+                os.environ['TZ'] = old
+            time.tzset()
+
+
+def _h_cert(eng, case):
     import ndn.encoding as enc
     from ndn.app_support import security_v2 as sv
     from ndn.encoding import Component, Name
@@ -260,6 +281,13 @@ def cases(tier, seed):
         for mode in ('new', 'derive_text') if quick else ('new', 'derive_text', 'derive_comp', 'self', 'sign_req'):
             cs.append(('cert', dict(base, pubkey='elastic', max=70000 if quick else 2 ** 20, signer=kind, mode=mode,
                                     rmin=rmin), {'weight': 30}))
+    # the same with the process in another time zone (east and west of Greenwich, across the date line of the instants)
+    for tz in ('JST-9', 'PST8', 'NPT-5:45'):
+        for mode in ('new', 'derive_text', 'derive_comp', 'self', 'sign_req'):
+            cs.append(('cert', dict(base, mode=mode, tz=tz, signer='hmac', d0=1, d1=3), {'weight': 3}))
+        bd = boundary_dates(tier)
+        for i in range(0, len(bd) - 1, 4):
+            cs.append(('cert', dict(base, mode='new', tz=tz, dates=[bd[i], bd[i + 1]], signer='hmac'), {'weight': 2}))
     # components handed over as memoryview / bytearray (e.g. taken from a parsed certificate name)
     for rep in ('mv', 'ba'):
         for mode in ('new', 'derive_text', 'derive_comp', 'self', 'sign_req'):
